@@ -535,3 +535,13 @@ Definition eok (c : ecase) : bool :=
 
 Definition agree (c : case) : bool := match c with CVec v => vagree v | CExt e => eagree e end.
 Definition ok (c : case) : bool := match c with CVec v => vok v | CExt e => eok e end.
+
+(** ** histories: ONE vectorised callable ([functools.partial(run_vectorized, op, constants=c, dtype=d)]) called several times.
+    [run_vectorized] starts with [constants = [] if constants is None else list(constants)]: every call works on a fresh copy of the
+    caller's [constants], so nothing that a call appends (auto-detected constants) survives the call and the object held by the partial
+    keeps its contents.  A history is therefore a list of independent calls, each judged against ITS OWN inputs and the caller's
+    original [constants]; that the caller's object really is unchanged after every call is a python-side clause of the harness
+    ([constants_unchanged]) because object identity/mutation has no counterpart in this value model. *)
+Definition history := list case.
+Definition agree_history (h : history) : bool := forallb agree h.
+Definition ok_history (h : history) : bool := forallb ok h.
